@@ -31,7 +31,7 @@ class PROP(Prop):
                     continue
                 slave = rng.randrange(1, 248)
                 rsp = mb.matching_rsp(rng, req)
-                if req[0] == "CU":
+                if req[0] == "CU" and req[1] in (0x18, 0x07, 0x0C, 0x0B):
                     # replies of the serial-line codes in the shape the RTU response length table expects
                     rsp = ("CU", req[1], {0x18: bytes([0, 4, 0xAA, 0xBB, 0xCC, 0xDD]), 0x07: b"\x55", 0x0C: bytes([3, 1, 2, 3]), 0x0B: bytes([0, 0, 0, 9])}[req[1]])
                 reply = cligen.frame(proto, 0, slave, mb.spec_rsp_pdu(rsp))
@@ -147,6 +147,9 @@ class PROP(Prop):
             res, w = cligen.res_and_w(rs[1])
             if not res.startswith("T:"):
                 return "after a call that failed at offset %d of its reply, a reply truncated at offset %d then %s: call returned %s, not a transport error" % (m["off1"], m["off"], m["tail"], res[:60])
+            if m["tail"].startswith("e:") and res != "T:" + m["tail"][2:]:
+                # the result is determined by what the transport did: it raised exactly this error while the reply was incomplete
+                return "after a call that failed at offset %d of its reply, the transport failed with %s at offset %d of the next reply, but the call reported %s" % (m["off1"], m["tail"][2:], m["off"], res)
             return None
         res, w = cligen.res_and_w(c.impl or "")
         frame = bytes.fromhex(m["frame"])
